@@ -13,7 +13,8 @@ RULE = ("every format {json, orjson, yaml, msgpack, toml} x every schema of the 
         "(a) decode(encode(v)) is `same` as v; (b) the document parsed by the format's own library equals the reference basic form with the "
         "format's declared native types left native and (TOML) null fields absent; (c) mixin document == codec document == one-shot "
         "document; (d) classes with different Config.orjson_options (eager / lazy / self-referencing) defined one after the other: each "
-        "to_jsonb equals orjson.dumps under ITS OWN options, a keyword overrides. Non-trivial: the value's basic form differs from the value.")
+        "to_jsonb equals orjson.dumps under ITS OWN options, a keyword overrides; (e) a field annotated with a base class holding a "
+        "subclass instance (class-level discriminator) in 4 shapes x every format mixin: document == format encoding of to_dict(), and back. Non-trivial: the value's basic form differs from the value.")
 ASSUMPTIONS = [
     "representable subset (part of the enumerator): string map keys for json/orjson/msgpack/toml, no bool/None/float keys for yaml, 64-bit ints for "
     "orjson/msgpack/toml, naive times for orjson/toml, no null inside containers for toml, table at top level for toml",
@@ -44,6 +45,9 @@ def units(tier):
     out = [(d, fmt) for d in _schemas(tier) for fmt in formats.FORMATS]
     # classes with different Config.orjson_options defined one after the other (each eager / lazy / self-referencing)
     out += [("orjson_options", oa, sa, ob, sb) for oa in OPTS for ob in OPTS for sa in STYLES for sb in STYLES]
+    # a field annotated with a base class holding an instance of a subclass (class-level discriminator, so the tag restores the class)
+    out += [("subclass", fmt, shape, first) for fmt in formats.FORMATS for shape in ("direct", "list", "opt", "dict")
+            for first in ("to_dict", "format")]
     return out
 
 
@@ -233,9 +237,72 @@ def _run_options(unit):
     return res
 
 
+def run_subclass(unit):
+    """Root.m is annotated Base and holds A(Base) / B(Base): the format document must be the format encoding of to_dict()
+    (the instance's own fields and tag), and decoding it must give the value back."""
+    _, fmt, shape, first = unit
+    res = core.UnitResult()
+    Mixin, to_name, from_name = formats.mixin(fmt)
+    # (the Optional field has a default: a null required field cannot come back from TOML, which has no null)
+    hint = {"direct": "Base", "list": "List[Base]", "opt": "Optional[Base] = None", "dict": "Dict[str, Base]"}[shape]
+
+    def V(clause, oc, idx, detail, facts):
+        res.violation(f"{clause}|subclass|{fmt}|{shape}|{first}|{oc}", clause, oc,
+                      dict(desc=None, format=fmt, entry="mixin", value_index=idx, unit=unit, facts=facts), detail)
+    with space.Ctx() as ctx:
+        ctx.ns["_FB"] = Mixin
+        ctx.run("@dataclass\nclass Base(_FB):\n    tag: str\n    class Config(BaseConfig):\n"
+                "        discriminator = Discriminator(field='kind', include_subtypes=True)\n")
+        ctx.run("@dataclass\nclass A(Base):\n    a: int = 1\n    kind: str = 'A'\n")
+        ctx.run("@dataclass\nclass B(Base):\n    b: str = 'x'\n    kind: str = 'B'\n")
+        ctx.run(f"@dataclass\nclass Root(_FB):\n    m: {hint}\n    n: int = 0\n")
+        ns = ctx.ns
+        a, b = ns["A"]("ta", 5), ns["B"]("tb", "y")
+        vals = {"direct": [a, b], "list": [[a, b], [b]], "opt": [a, None], "dict": [{"k": a, "l": b}]}[shape]
+        for idx, mv in enumerate(vals):
+            v = ns["Root"](mv, 3)
+            res.cases += 1
+            res.transitions += 2
+            if first == "to_dict":
+                basic = v.to_dict()
+                doc = e1.outcome(lambda: getattr(v, to_name)())
+            else:
+                doc = e1.outcome(lambda: getattr(v, to_name)())
+                basic = v.to_dict()
+            if doc[0] == "exc":
+                V("encode-raised", type(doc[1]).__name__, idx, f"{doc[1]!r:.200}", {})
+                continue
+            parsed = formats.parse(fmt, doc[1])
+            want = basic if fmt != "toml" else formats.drop_none(basic)
+
+            def base_only(x):
+                if isinstance(x, dict) and "kind" in x:
+                    return {"tag": x["tag"]}
+                if isinstance(x, dict):
+                    return {k: base_only(y) for k, y in x.items()}
+                if isinstance(x, list):
+                    return [base_only(y) for y in x]
+                return x
+            if parsed != want:
+                facts = dict(subclass_instance_in_base_typed_field=True, serialized_by_the_annotated_class=parsed == base_only(want))
+                V("document-neq-basic-form", "neq", idx, f"value={v!r:.150} to_dict={want!r:.200} parsed {fmt} document={parsed!r:.200}", facts)
+                res.outcomes["document-neq"] += 1
+                continue
+            back = e1.outcome(lambda: getattr(ns["Root"], from_name)(doc[1]))
+            if back[0] == "exc" or back[1] != v:
+                V("roundtrip-neq", "neq", idx, f"value={v!r:.150} back={back[1]!r:.200}", {})
+                continue
+            res.outcomes["ok"] += 1
+            res.nontrivial += 1
+    res.states += 1
+    return res
+
+
 def run_unit(unit, only=None):
     if unit[0] == "orjson_options":
         return run_options(unit)
+    if unit[0] == "subclass":
+        return run_subclass(unit)
     d, fmt = unit
     res = core.UnitResult()
     Mixin, to_name, from_name = formats.mixin(fmt)
@@ -356,6 +423,8 @@ def run_unit(unit, only=None):
 
 
 def replay(case):
+    if case.get("unit") and case["unit"][0] == "subclass":
+        return [v for v in run_subclass(tuple(case["unit"])).violations if v["case"]["value_index"] == case["value_index"]]
     if case.get("unit"):
         return run_options(tuple(case["unit"])).violations
     return [v for v in run_unit((core.detuple(case["desc"]), case["format"]), only=case["value_index"] if case["value_index"] >= 0 else None).violations
